@@ -25,6 +25,7 @@ type SolveResult struct {
 	Queries  int
 	QueryTxt string
 	Insts    int
+	MaxSeconds float64
 }
 
 // ---------- preparation ----------
@@ -54,53 +55,175 @@ func splitConj(t *Term, out *[]*Term) {
 	}
 }
 
-// collect ground marked terms (candidates), by candidate class
-func collectCands(fs []*Term, cands map[string]map[*Term]bool) {
-	seen := map[*Term]bool{}
-	add := func(key string, t *Term) {
-		m := cands[key]
-		if m == nil {
-			m = map[*Term]bool{}
-			cands[key] = m
+// Candidate classes. A candidate is registered under "<type>|*" and under "<type>|<context>"
+// for every context it occurs in: "sel:<array base>" (used as an index into that array) or
+// "app:<spec fn>#<arg>" (argument of a spec function). Bound variables are instantiated only
+// with candidates that share one of their own contexts (pattern-directed instantiation);
+// skolem constants and hint terms ("<type>|sk") are always used.
+
+func arrayBase(a *Term) string {
+	for {
+		a = unmark(a)
+		switch a.Op {
+		case "store", "select":
+			a = a.Args[0]
+			continue
+		case "var", "app":
+			n := a.Name
+			if k := strings.IndexAny(n, "@!"); k >= 0 {
+				n = n[:k]
+			}
+			return n
+		case "ite":
+			a = a.Args[1]
+			continue
 		}
-		m[t] = true
+		return a.Op
 	}
+}
+
+// markIn finds the marked term used as the index expression idx: mark(t) or off + mark(t).
+func markIn(idx *Term) *Term {
+	if idx.Op == "mark" {
+		return idx
+	}
+	if idx.Op == "bvadd" {
+		for _, a := range idx.Args {
+			if a.Op == "mark" {
+				return a
+			}
+		}
+	}
+	return nil
+}
+
+// visitMarks calls f(markNode, context) for every mark occurrence with a recognisable context,
+// and f(markNode, "*") for every mark node.
+func visitMarks(fs []*Term, f func(m *Term, ctx string)) {
+	seen := map[*Term]bool{}
 	var rec func(t *Term)
 	rec = func(t *Term) {
 		if seen[t] {
 			return
 		}
 		seen[t] = true
-		if t.Op == "mark" && !t.hasB {
-			u := unmark(t)
-			add(t.Name, u)
-			if u.Op == "sign_extend" {
-				add(fmt.Sprintf("s%d", u.Args[0].S.W), unmark(u.Args[0]))
+		switch t.Op {
+		case "mark":
+			f(t, "*")
+		case "select", "store":
+			if m := markIn(t.Args[1]); m != nil {
+				f(m, "sel:"+arrayBase(t.Args[0]))
 			}
-			if u.Op == "zero_extend" {
-				add(fmt.Sprintf("u%d", u.Args[0].S.W), unmark(u.Args[0]))
+		case "app":
+			for j, a := range t.Args {
+				if a.Op == "mark" {
+					f(a, fmt.Sprintf("app:%s#%d", t.Name, j))
+				}
 			}
 		}
 		for _, a := range t.Args {
 			rec(a)
 		}
 	}
-	for _, f := range fs {
-		rec(f)
+	for _, x := range fs {
+		rec(x)
 	}
+}
+
+func addCand(cands map[string]map[*Term]bool, key string, t *Term) {
+	m := cands[key]
+	if m == nil {
+		m = map[*Term]bool{}
+		cands[key] = m
+	}
+	m[t] = true
+}
+
+// collect ground marked terms (candidates)
+func collectCands(fs []*Term, cands map[string]map[*Term]bool) {
+	visitMarks(fs, func(m *Term, ctx string) {
+		if m.hasB {
+			return
+		}
+		u := unmark(m)
+		addCand(cands, m.Name+"|"+ctx, u)
+		if u.Op == "sign_extend" {
+			addCand(cands, fmt.Sprintf("s%d|%s", u.Args[0].S.W, ctx), unmark(u.Args[0]))
+		}
+		if u.Op == "zero_extend" {
+			addCand(cands, fmt.Sprintf("u%d|%s", u.Args[0].S.W, ctx), unmark(u.Args[0]))
+		}
+	})
 }
 
 func addHintCands(cands map[string]map[*Term]bool, ts []*Term) {
 	for _, t := range ts {
-		for _, key := range []string{fmt.Sprintf("s%d", t.S.W), fmt.Sprintf("u%d", t.S.W)} {
-			m := cands[key]
-			if m == nil {
-				m = map[*Term]bool{}
-				cands[key] = m
-			}
-			m[t] = true
+		for _, key := range []string{fmt.Sprintf("s%d|sk", t.S.W), fmt.Sprintf("u%d|sk", t.S.W)} {
+			addCand(cands, key, t)
 		}
 	}
+}
+
+var bvCtxCache = map[*Term]map[*Term][]string{}
+
+// boundContexts returns, per bound variable of quantifier q, the contexts in which the
+// variable itself (possibly sign/zero-extended) is used.
+func boundContexts(q *Term) map[*Term][]string {
+	if r, ok := bvCtxCache[q]; ok {
+		return r
+	}
+	r := map[*Term][]string{}
+	isB := map[*Term]bool{}
+	for _, b := range q.Bound {
+		isB[b] = true
+	}
+	visitMarks(q.Args, func(m *Term, ctx string) {
+		if ctx == "*" {
+			return
+		}
+		u := unmark(m)
+		if u.Op == "sign_extend" || u.Op == "zero_extend" {
+			u = unmark(u.Args[0])
+		}
+		if isB[u] {
+			for _, c := range r[u] {
+				if c == ctx {
+					return
+				}
+			}
+			r[u] = append(r[u], ctx)
+		}
+	})
+	bvCtxCache[q] = r
+	return r
+}
+
+// candidatesFor lists the instantiation terms for bound variable b of quantifier q.
+func candidatesFor(q, b *Term, cands map[string]map[*Term]bool) []*Term {
+	set := map[*Term]bool{}
+	ctxs := boundContexts(q)[b]
+	if len(ctxs) == 0 {
+		for c := range cands[b.Key+"|*"] {
+			set[c] = true
+		}
+	} else {
+		for _, cx := range ctxs {
+			for c := range cands[b.Key+"|"+cx] {
+				set[c] = true
+			}
+		}
+	}
+	for c := range cands[b.Key+"|sk"] {
+		set[c] = true
+	}
+	var l []*Term
+	for c := range set {
+		if c.S == b.S {
+			l = append(l, c)
+		}
+	}
+	sort.Slice(l, func(i, j int) bool { return l[i].id < l[j].id })
+	return l
 }
 
 func (p *prep) skolemFor(q *Term) map[*Term]*Term {
@@ -151,14 +274,7 @@ func (p *prep) inst(f *Term, pos bool, cands map[string]map[*Term]bool) *Term {
 		lists := make([][]*Term, len(f.Bound))
 		total := 1
 		for i, b := range f.Bound {
-			var l []*Term
-			for c := range cands[b.Key] {
-				if c.S != b.S {
-					continue
-				}
-				l = append(l, c)
-			}
-			sort.Slice(l, func(a, c int) bool { return l[a].id < l[c].id })
+			l := candidatesFor(f, b, cands)
 			lists[i] = l
 			total *= len(l)
 			if total > maxInstPerQuant {
@@ -282,12 +398,7 @@ func (w *World) Prepare(o *Obligation, lemmaMax int) ([]*Term, *prep) {
 	addSkolems := func() {
 		for q, m := range p.skolems {
 			for _, b := range q.Bound {
-				mm := cands[b.Key]
-				if mm == nil {
-					mm = map[*Term]bool{}
-					cands[b.Key] = mm
-				}
-				mm[m[b]] = true
+				addCand(cands, b.Key+"|sk", m[b])
 			}
 		}
 	}
@@ -674,27 +785,58 @@ func (w *World) PrepareObligation(o *Obligation, lemmaMax int) *PreparedObl {
 	return po
 }
 
-// Run solves the prepared queries (safe to call concurrently for different obligations).
-func (po *PreparedObl) Run(timeout int) {
+type queryJob struct {
+	po  *PreparedObl
+	idx int
+	res *SolveResult
+}
+
+// Jobs returns one job per query; trivial obligations are resolved immediately.
+func (po *PreparedObl) Jobs() []*queryJob {
 	o := po.O
 	if po.Trivial {
 		o.Res = &SolveResult{Status: "unsat", Solver: "simplifier"}
-		return
+		return nil
 	}
 	if po.Err != "" {
 		o.Res = &SolveResult{Status: "error", Output: po.Err}
-		return
+		return nil
 	}
+	if len(po.Queries) == 0 {
+		o.Res = &SolveResult{Status: "unsat", Solver: "simplifier"}
+		return nil
+	}
+	var js []*queryJob
+	for i := range po.Queries {
+		js = append(js, &queryJob{po: po, idx: i})
+	}
+	return js
+}
+
+func (j *queryJob) run(timeout int) {
+	o := j.po.O
 	if o.Hints != nil && o.Hints.Timeout > 0 && o.Hints.Timeout < timeout {
 		timeout = o.Hints.Timeout
 	}
+	j.res = solveQuery(j.po.Queries[j.idx].Text, timeout, false)
+}
+
+// Collect aggregates the per-query results of an obligation.
+func (po *PreparedObl) Collect(js []*queryJob) {
+	o := po.O
 	res := &SolveResult{Status: "unsat", Insts: po.Insts}
-	for _, q := range po.Queries {
-		r := solveQuery(q.Text, timeout, false)
+	for _, j := range js {
+		r := j.res
+		q := po.Queries[j.idx]
 		res.Queries++
 		res.Seconds += r.Seconds
-		res.Solver = r.Solver
-		if r.Status != "unsat" {
+		if res.Solver == "" || r.Status != "unsat" {
+			res.Solver = r.Solver
+		}
+		if r.Seconds > res.MaxSeconds {
+			res.MaxSeconds = r.Seconds
+		}
+		if r.Status != "unsat" && res.Status == "unsat" {
 			res.Status = r.Status
 			res.Output = strings.TrimSpace(q.Label + " " + r.Output)
 			res.QueryTxt = q.Text
@@ -707,14 +849,10 @@ func (po *PreparedObl) Run(timeout int) {
 					}
 				}
 			}
-			break
 		}
 	}
 	if res.Solver == "" {
 		res.Solver = "simplifier"
-	}
-	if len(po.Queries) > 0 && res.QueryTxt == "" && o.KeepQuery {
-		res.QueryTxt = po.Queries[0].Text
 	}
 	o.Res = res
 }
